@@ -398,6 +398,15 @@ def bounded(pr):
             viol.append({'what': '%s %s -p propka.cfg: result depends on the working directory (a same-named file there is picked up)' % (name, opts), 'replay': None})
         for h in range(n_hist):
             ev += 1
+            if h == 0:
+                # earlier invocations in this process that asked for other grids, windows, references, pH: nothing of that may stay
+                # behind in the defaults the next invocation starts from
+                for o in (['--window', '0', '16', '1'], ['-g', '2', '10', '0.5'], ['-w', '3', '9', '2', '-g', '1', '12', '0.25'],
+                          ['-o', '2.5', '-r', 'low-pH'], ['--window', '-2', '15', '0.5']):
+                    try:
+                        native.run_text(native.pdb_lines('3SGB-subset'), o)
+                    except (Exception, SystemExit):    # noqa
+                        pass
             # a random history of other inputs/options in THIS process, then the target
             for _ in range(rng.randint(0, 3)):
                 try:
